@@ -49,6 +49,16 @@ PROPS = {
         "level_text": "Theorems: withCount/withKeys expansion exact and in order; the cartesian product is complete, of the right size and duplicate-free for duplicate-free lists; task names are injective in (hash, retry); the index variables identify the index; accepted specs have no duplicate or empty lists. The faithful odometer model is tied to the code by the parallel stream; hash collisions are judged by the monitor (open finding F5c).",
         "level_note": "Partial (odometer refinement not proved). Trusted: Coq kernel + vm_compute; HashIndex as oracle.",
     },
+    "C18": {
+        "props_file": "Props/C18.v",
+        "theorems": ["c18_bool", "c18_string", "c18_select", "c18_multi", "c18_date", "c18_wrong_type_rejected", "c18_default_agreement", "c18_one_value_per_option", "c18_rejected_iff_some_option_rejected", "c18_admission_precedence", "c18_option_own_value", "c18_substitution_deterministic", "c18_plain_text_untouched_partial", "c18_exact_variable_partial"],
+        "families": [{"name": "options", "n_quick": 3000, "n_thorough": 60000}],
+        "rule": "options: three kinds of case. (1) one option of any of the five types (incl. unknown bool formats, empty/duplicate allowed values, all delimiters) with a value that is missing, null, wrong-typed, empty, whitespace, custom or containing ${..}, through EvaluateOption and EvaluateOptionDefault. (2) SubstituteVariableMaps on tokenised templates (known/unknown/reserved/malformed variables, literals) with 1-3 maps whose values may mention other variables of the same map; each call and NewPod repeated 20 times. (3) a JobConfig with 0-3 options + template args, a Job admitted by configName with optionValues JSON and explicit substitutions, or created by NewJobFromJobConfig as the cron controller does, through Mutator.MutateCreateJob and then podtaskexecutor.NewPod: stored spec.substitutions and rendered args compared with the model. non-trivial = evaluation succeeded / template has a variable / admitted with >=1 option; distinct by inputs",
+        "trusted": ["oracle: goment date formatting (FormatAsMoment) and time.Parse(RFC3339) - the formatted text of each date value of the run is shipped with the case", "strings.TrimSpace is modelled for ASCII white space only (the streams generate only that)", "the task-context variable map is taken from MakeVariablesFromTask (its correspondence is C14's)", "JSON/YAML decoding of optionValues (jsonyaml.UnmarshalString) is exercised, not modelled: the model receives the decoded values"],
+        "assumptions": ["partial: the general template semantics (every ${name} of an arbitrary template takes the highest-priority value, unknown reserved names blank) is a model definition (substitute_maps = the code's ReplaceAll/regexp pipeline) tied by the stream and an independent monitor on tokenised templates; proved are: plain text untouched, exact single variable, priority of the stored map, determinism"],
+        "level_text": "Theorems over all inputs: per-type constraint satisfaction of every accepted value (allowed values, required => non-empty, trimming, bool formats, multi join, date via oracle), rejection of wrong-typed values, agreement of 'no value' with EvaluateOptionDefault, one value per declared option or rejection, the priority order explicit > option > jobconfig context of the stored map (sort_kv is a finite map: later wins), independence of substitution from map enumeration order (sorted lists with equal lookups are equal). Model tied to EvaluateOption/Default, SubstituteVariableMaps, MutateCreateJob and NewPod by the options stream.",
+        "level_note": "Partial on general template semantics. Genuine defect F7 (map-order dependent rendering) fixed in 3075a93. Trusted: Coq kernel + vm_compute; date formatting oracle.",
+    },
     "C05": {
         "props_file": "Props/C05.v",
         "theorems": ["c05_pass_bound", "c05_no_double_increment", "c05_release_on_finish", "c05_release_on_delete", "c05_store_steps", "c05_rollback", "c05_recover"],
